@@ -60,6 +60,7 @@ class Tally:
         self.caps = []
         self.maxima = {}  # name -> (ratio to tolerance, case) observed maximum
         self.notes = {}
+        self.lines = {}  # repo-relative file -> set of executed line numbers (coverage, sys.monitoring core)
 
     # -- recording -----------------------------------------------------------
     def state(self, key):
@@ -152,6 +153,8 @@ class Tally:
             cur = self.maxima.get(k)
             if cur is None or not (v[0] <= cur[0]):
                 self.maxima[k] = v
+        for f, ls in o.lines.items():
+            self.lines.setdefault(f, set()).update(ls)
         for k, v in o.notes.items():
             if isinstance(v, (int, float)) and isinstance(self.notes.get(k), (int, float)):
                 self.notes[k] += v
@@ -227,7 +230,20 @@ def _worker_init(pid, config):
     import warnings
 
     warnings.filterwarnings("ignore")
-    bind_repo()
+    repo = bind_repo()
+    _W["repo"] = repo
+    if os.environ.get("VERIF_COVERAGE", "1") != "0":
+        # adequacy measurement: which lines of the library the exploration executes.  The sys.monitoring
+        # core (python 3.12) has no measurable overhead; failures here never affect the verdict.
+        try:
+            os.environ.setdefault("COVERAGE_CORE", "sysmon")
+            import coverage
+
+            cov = coverage.Coverage(data_file=None, include=[os.path.join(repo, "beyond", "*")], config_file=False)
+            cov.start()
+            _W["cov"] = cov
+        except Exception:
+            _W["cov"] = None
     h = load_harness(pid)
     _W["h"] = h
     _W["config"] = config
@@ -243,6 +259,16 @@ def _worker_run(idx, payload):
         err = None
     except Exception:
         err = traceback.format_exc()
+    cov = _W.get("cov")
+    if cov is not None:
+        try:
+            data = cov.get_data()
+            pre = _W["repo"].rstrip("/") + "/"
+            for f in data.measured_files():
+                if f.startswith(pre):
+                    t.lines[f[len(pre):]] = set(data.lines(f) or ())
+        except Exception:
+            pass
     return idx, t, err, time.time() - t0
 
 
